@@ -87,6 +87,11 @@ func zzScenario(state string) (*fakeapi.Client, *v1alpha1.ExtendedDaemonSet) {
 		}
 		c.ERS = append(c.ERS, rsB)
 	}
+	// the rollout may have been frozen before the template was edited (freeze-rollout is only accepted
+	// without a canary; the canary starts all the same): the canary commands work as usual
+	if ds.Status.Canary != nil && nondet.Bool("rolloutFrozenBeforeTheCanary") {
+		ds.Annotations[v1alpha1.ExtendedDaemonSetRolloutFrozenAnnotationKey] = "true"
+	}
 	// the user may have switched automatic failing off: a manual `canary fail` still counts
 	if ds.Spec.Strategy.Canary != nil && nondet.Bool("autoFailDisabled") {
 		off := false
